@@ -27,7 +27,7 @@ const binChunk = 4096
 var strClasses = []struct {
 	name string
 	unit string
-}{{"ascii", "a"}, {"2byte", "é"}, {"3byte", "中"}, {"4byte", "😀"}}
+}{{"ascii", "a"}, {"2byte", "é"}, {"3byte", "中"}, {"4byte", "😀"}, {"U+FFFD", "\uFFFD"}, {"NUL", "\x00"}}
 
 func mkString(unit string, n int) string { return strings.Repeat(unit, n) }
 
